@@ -1,4 +1,6 @@
 import XlModel.Settings
+import XlModel.Protection
+import XlModel.CondFmt
 import XlModel.Drv.Util
 namespace XlModel.Drv.C18
 open XlModel XlModel.Settings XlModel.Drv
@@ -111,7 +113,7 @@ def joinComma : List (List Char) → List Char
   | [a] => a
   | a :: rest => a ++ ',' :: joinComma rest
 
-def step (st : DNState) (w : List String) : DNState × String :=
+def stepDn (st : DNState) (w : List String) : DNState × String :=
   match w with
   | "cpn" :: fl :: "|" :: rest =>
     match splitBar rest with
@@ -175,6 +177,113 @@ def step (st : DNState) (w : List String) : DNState × String :=
   | ["dnget"] => (st, showDN (getDN st))
   | _ => (st, "bad-op")
 
-def run : IO Unit := runStateful (⟨[], []⟩ : DNState) step
+/-! protection histories (`ph*` lines) and conditional-format histories (`cf*` lines) -/
+
+structure St where
+  dn : DNState
+  kind : Protection.PKind
+  prot : Option Protection.PRec
+  cf : List (String × CondFmt.Sheet)
+
+/-- symbolic ISO hash: injective in all three arguments -/
+def symHash : Protection.Hash := fun a p s => 'H' :: a ++ '|' :: p ++ '|' :: s
+
+def insertSorted (x : String) : List String → List String
+  | [] => [x]
+  | y :: ys => if x < y then x :: y :: ys else y :: insertSorted x ys
+
+def sortStrs (l : List String) : List String := l.foldr insertSorted []
+
+def showProt : Option Protection.PRec → String
+  | none => "none"
+  | some r =>
+    let b (x : List Char) := if x.isEmpty then "0" else "1"
+    "alg=" ++ hexS r.alg ++ " pw=" ++ hexS r.password ++ " hash=" ++ b r.hash ++ " salt=" ++ b r.salt ++
+      " spin=" ++ toString r.spin ++ " " ++
+      " ".intercalate (sortStrs (r.flags.map fun f => f.1 ++ "=" ++ (if f.2 then "true" else "false")))
+
+def parseFlags (s : String) : List (String × Bool) :=
+  if s = "-" then [] else
+  (s.splitOn ",").filterMap fun t => match t.splitOn ":" with
+    | [n, v] => some (n, v = "1")
+    | _ => none
+
+def cfGet (cf : List (String × CondFmt.Sheet)) (sheet : String) : CondFmt.Sheet :=
+  match cf.lookup sheet with
+  | some s => s
+  | none => []
+
+def cfPut (cf : List (String × CondFmt.Sheet)) (sheet : String) (v : CondFmt.Sheet) : List (String × CondFmt.Sheet) :=
+  if cf.any (·.1 == sheet) then cf.map (fun p => if p.1 == sheet then (p.1, v) else p) else cf ++ [(sheet, v)]
+
+/-- distinct ranges in order of first occurrence -/
+def cfKeys (s : CondFmt.Sheet) : List (List Char) :=
+  s.foldl (fun acc b => if acc.contains b.sqref then acc else acc ++ [b.sqref]) []
+
+/-- what the getter shows: sorted `range#rules` -/
+def showCfLive (s : CondFmt.Sheet) : String :=
+  let items := sortStrs ((cfKeys s).map fun r => hexS r ++ "#" ++ toString (CondFmt.count s r))
+  if items.isEmpty then "-" else ",".intercalate items
+
+/-- what the saved sheet XML shows: blocks in document order with their priorities -/
+def showCfSaved (s : CondFmt.Sheet) : String :=
+  if s.isEmpty then "-" else
+  ";".intercalate (s.map fun b => hexS b.sqref ++ "[" ++ ",".intercalate (b.prios.map toString) ++ "]")
+
+def cfSheets : List String := ["Sheet1", "S2"]
+
+def showAllLive (cf : List (String × CondFmt.Sheet)) : String :=
+  " | ".intercalate (cfSheets.map fun n => n ++ ": " ++ showCfLive (cfGet cf n))
+
+def showAllSaved (cf : List (String × CondFmt.Sheet)) : String :=
+  " | ".intercalate (cfSheets.map fun n => n ++ ": " ++ showCfSaved (cfGet cf n))
+
+def step (st : St) (w : List String) : St × String :=
+  match w with
+  | ["phnew", k] => ({ st with kind := if k = "workbook" then .workbook else .sheet, prot := none }, "ok")
+  | ["phprot", a, p, fl] =>
+    match unhexS a, unhexS p with
+    | some a, some p =>
+      let (st', ok) := Protection.protect st.kind symHash ['s'] st.prot ⟨a, p, parseFlags fl⟩
+      ({ st with prot := st' }, (if ok then "ok " else "E_PROT ") ++ showProt st')
+    | _, _ => (st, "bad-op")
+  | ["phunprot", p] =>
+    match (if p = "~" then some none else (unhexS p).map some) with
+    | some pw =>
+      let (st', ok) := Protection.unprotect st.kind symHash st.prot pw
+      ({ st with prot := st' }, (if ok then "ok " else "refused ") ++ showProt st')
+    | none => (st, "bad-op")
+  | ["phswap"] => (st, showProt st.prot)
+  | ["svz", v1, v2, z1, z2] =>
+    match unhexS v1, unhexS v2, z1.toInt?, z2.toInt? with
+    | some v1, some v2, some z1, some z2 =>
+      (st, "ok " ++ hexS (getView (setView (setView [] v1) v2)) ++ " " ++ toString (getZoom (setZoom (setZoom 0 z1) z2)))
+    | _, _, _, _ => (st, "bad-op")
+  | ["fpn", a, b] =>
+    match a.toNat?, b.toNat? with
+    | some a, some b => (st, "ok " ++ toString (getFirstPage (setFirstPage (setFirstPage none a) b)))
+    | _, _ => (st, "bad-op")
+  | ["cfnew"] => ({ st with cf := [] }, "ok")
+  | ["cfset", sheet, r, n, _] =>
+    match unhexS r, n.toNat? with
+    | some r, some n =>
+      let cf := cfPut st.cf sheet (CondFmt.setCF (cfGet st.cf sheet) r n)
+      ({ st with cf := cf }, "ok " ++ showAllLive cf)
+    | _, _ => (st, "bad-op")
+  | ["cfrejected", _, _, _, _] => (st, "E_CF " ++ showAllLive st.cf)
+  | ["cfunset", sheet, r] =>
+    match unhexS r with
+    | some r =>
+      let cf := cfPut st.cf sheet (CondFmt.unsetCF (cfGet st.cf sheet) r)
+      ({ st with cf := cf }, "ok " ++ showAllLive cf)
+    | none => (st, "bad-op")
+  | ["cfedit"] => (st, showAllLive st.cf)
+  | ["cfsave"] => (st, showAllSaved st.cf)
+  | ["cfswap"] => (st, showAllSaved st.cf)
+  | _ =>
+    let (d, o) := stepDn st.dn w
+    ({ st with dn := d }, o)
+
+def run : IO Unit := runStateful (⟨⟨[], []⟩, .sheet, none, []⟩ : St) step
 
 end XlModel.Drv.C18
